@@ -213,8 +213,10 @@ class DULServiceProvider(threading.Thread):
         if self.raw_pdu and self._process_incoming():
             return True
 
-        # check if something comes in the client socket
-        if select.select([self.dul_socket], [], [], 0.05)[0]:
+        # check if something comes in the client socket; wait for it only when there is nothing to
+        # send, otherwise every outgoing fragment would be delayed by the polling interval
+        has_outgoing = self.dimse_gen is not None or not self.from_service_user.empty()
+        if select.select([self.dul_socket], [], [], 0 if has_outgoing else 0.05)[0]:
             if self._check_incoming_pdu():
                 return True
 
